@@ -117,12 +117,31 @@ func (h *Host) wireFunctions(logger zerolog.Logger, ls *lua.LState) {
 	}
 }
 
+// detachAddresses gives an after-event handler its own copies of the address objects.  The event
+// shares them with the stored message and with the other listeners; a script that assigns to
+// msg.from or msg.to[i] must not be able to alter those.
+func detachAddresses(msg *event.MessageMetadata) {
+	if msg.From != nil {
+		from := *msg.From
+		msg.From = &from
+	}
+	to := append(msg.To[:0:0], msg.To...)
+	for i, addr := range to {
+		if addr != nil {
+			addrCopy := *addr
+			to[i] = &addrCopy
+		}
+	}
+	msg.To = to
+}
+
 func (h *Host) handleAfterMessageDeleted(msg event.MessageMetadata) {
 	logger, ls, ib, ok := h.prepareInbucketFuncCall("after.message_deleted")
 	if !ok {
 		return
 	}
 	defer h.pool.putState(ls)
+	detachAddresses(&msg)
 
 	// Call lua function.
 	logger.Debug().Msgf("Calling Lua function with %+v", msg)
@@ -140,6 +159,7 @@ func (h *Host) handleAfterMessageStored(msg event.MessageMetadata) {
 		return
 	}
 	defer h.pool.putState(ls)
+	detachAddresses(&msg)
 
 	// Call lua function.
 	logger.Debug().Msgf("Calling Lua function with %+v", msg)
